@@ -5,7 +5,7 @@
 From Dashu Require Import Base.Prelude Base.Words.
 From Dashu Require Import Int.RingOps Int.BitsKernels Int.BitsSpec.
 From Dashu Require Import Float.RoundSpec Float.Contract Float.Model Float.TextIoModel Float.RoundOpsModel.
-From Dashu Require Import Int.ReprOrdModel Int.ReprOrdProofs Int.ReprOrdArith.
+From Dashu Require Import Int.ReprOrdNoNegZero Int.ReprOrdModel Int.ReprOrdProofs Int.ReprOrdArith.
 From Dashu Require Import Float.FloatOrdModel Float.FloatOrdProofs Float.FloatOrdTotal Float.FloatOrdProducers.
 From Dashu Require Import Ratio.RatioOrdModel Ratio.RatioOrdProofs.
 Open Scope Z_scope.
@@ -320,6 +320,39 @@ Theorem C05_ubig_shift : forall w, 8 <= w -> forall f c a n, canonical w a -> 0 
 Proof. exact ubig_shift_ok. Qed.
 Print Assumptions C05_ubig_shift.
 
+(** C01's models never return a negative zero, so the sign the composition stores is the sign the model computed
+    (Repr::with_sign never has to correct it): zero is positive after every signed operation *)
+Theorem C05_ibig_add_no_negative_zero : forall w o s0 x s1 y r, ibig_add_asis w o s0 x s1 y = Ok r ->
+  fst r = Negative -> RingOps.is_zero (snd r) = false.
+Proof. exact ibig_add_no_negative_zero. Qed.
+Print Assumptions C05_ibig_add_no_negative_zero.
+
+Theorem C05_ibig_sub_no_negative_zero : forall w o s0 x s1 y r, ibig_sub_asis w o s0 x s1 y = Ok r ->
+  fst r = Negative -> RingOps.is_zero (snd r) = false.
+Proof. exact ibig_sub_no_negative_zero. Qed.
+Print Assumptions C05_ibig_sub_no_negative_zero.
+
+Theorem C05_ibig_mul_no_negative_zero : forall w TS TK CH SQ s0 x s1 y r, ibig_mul_asis w TS TK CH SQ s0 x s1 y = Ok r ->
+  fst r = Negative -> RingOps.is_zero (snd r) = false.
+Proof. exact ibig_mul_no_negative_zero. Qed.
+Print Assumptions C05_ibig_mul_no_negative_zero.
+
+Theorem C05_ibig_add_sign_exact : forall w, 8 <= w -> forall o c a b s t, canonical w a -> canonical w b ->
+  ibig_add_asis w o (rsign a) (to_t w a) (rsign b) (to_t w b) = Ok (s, t) -> rsign (of_mag w c s (of_t t)) = s.
+Proof. exact ibig_add_sign_exact. Qed.
+Print Assumptions C05_ibig_add_sign_exact.
+
+Theorem C05_ibig_sub_sign_exact : forall w, 8 <= w -> forall o c a b s t, canonical w a -> canonical w b ->
+  ibig_sub_asis w o (rsign a) (to_t w a) (rsign b) (to_t w b) = Ok (s, t) -> rsign (of_mag w c s (of_t t)) = s.
+Proof. exact ibig_sub_sign_exact. Qed.
+Print Assumptions C05_ibig_sub_sign_exact.
+
+(** whatever is computed on integers and then stored through Repr::from_buffer / with_sign is canonical *)
+Theorem C05_store_value : forall w, 8 <= w -> forall c n v, 0 <= n -> Z.abs v < Words.B w ^ n ->
+  canonical w (store_value w c n v) /\ rvalue w (store_value w c n v) = v.
+Proof. exact store_value_ok. Qed.
+Print Assumptions C05_store_value.
+
 (** histories that mix constructors, copies, sign changes, in-place updates and arithmetic *)
 Theorem C05_arith_history_canonical : forall w, 8 <= w -> forall os p, Forall (canonical w) p -> Forall (aop_ok w) os ->
   Forall (canonical w) (arun w p os).
@@ -406,6 +439,16 @@ Theorem C05_float_round_normalized : forall B, 2 <= B -> forall digits_ub pinned
   round_asis B digits_ub pinned p s e = Ok r -> nz B (fl_pair r).
 Proof. exact round_nz. Qed.
 Print Assumptions C05_float_round_normalized.
+
+Theorem C05_float_parse_normalized : forall B s0 s e nd, 2 <= B -> parse_asis B s0 = Ok (s, e, nd) -> nz B (s, e).
+Proof. exact parse_nz. Qed.
+Print Assumptions C05_float_parse_normalized.
+
+(** Context::repr_round (convert_int, integers, every `repr_round(Repr::new(..))`): normalised in, normalised out *)
+Theorem C05_float_repr_round_normalized : forall B, 2 <= B -> forall p m s e, nz B (s, e) ->
+  nz B (approx_pair (norm_approx B (repr_round B p m s e))).
+Proof. exact norm_approx_round_nz. Qed.
+Print Assumptions C05_float_repr_round_normalized.
 
 Theorem C05_float_producers_normalized : forall B x, 2 <= B -> produced B x -> fwf x /\ normalized_ext B x.
 Proof. exact produced_normalized. Qed.
